@@ -184,7 +184,7 @@ prop(
 
 prop(
     "C14", level="other", selftest=["block_diagonalization"],
-    rules=[e6.rule_projector_call_sites, e2b.rule_taylor, e2b.rule_order_preserving_evals, e2b.rule_key_normalisation,
+    rules=[e6.rule_projector_call_sites, e6.rule_subspaces_from_indices, e2b.rule_taylor, e2b.rule_order_preserving_evals, e2b.rule_key_normalisation,
            e5.rule_total_callbacks, e2.rule_adjoint_fill, e4.rule_value_preserving],
     explanation=(
         "Narrow claim: operator_to_BlockSeries returns L_i† A R_j (projector families, argument order of every "
